@@ -160,21 +160,40 @@ def build_driver():
 
 FEATURES = {'std': ['--features', 'std'], 'alloc': ['--features', 'alloc'], 'none': []}
 
+def harness_dir():
+    """the harness crate; for a scratch copy of the repository (VERIF_REPO, used only by the seeded
+    self-test tooling) a copy of the crate whose path dependency points there"""
+    if REPO == '/repo':
+        return HARNESS_DIR, ''
+    tag = '-' + hashlib.sha1(REPO.encode()).hexdigest()[:8]
+    d = os.path.join(CACHE, 'harness' + tag)
+    os.makedirs(os.path.join(d, 'src'), exist_ok=True)
+    os.makedirs(os.path.join(d, '.cargo'), exist_ok=True)
+    for f in ('src/main.rs', 'src/enums.rs', 'Cargo.lock', '.cargo/config.toml'):
+        src = open(os.path.join(HARNESS_DIR, f)).read()
+        dst = os.path.join(d, f)
+        if not os.path.exists(dst) or open(dst).read() != src: open(dst, 'w').write(src)
+    toml = open(os.path.join(HARNESS_DIR, 'Cargo.toml')).read().replace('path = "/repo"', 'path = "%s"' % REPO)
+    dst = os.path.join(d, 'Cargo.toml')
+    if not os.path.exists(dst) or open(dst).read() != toml: open(dst, 'w').write(toml)
+    return d, tag
+
 def build_harness(feat, profile='debug'):
     """cargo rebuilds /repo's working tree (path dependency) on every call."""
-    tdir = os.path.join(CACHE, 'target-' + feat)
-    with Lock('cargo-' + feat):
+    hdir, tag = harness_dir()
+    tdir = os.path.join(CACHE, 'target-' + feat + tag)
+    with Lock('cargo-' + feat + tag):
         cmd = ['cargo', 'build', '--offline', '--quiet', '--target-dir', tdir] + FEATURES[feat]
         if profile == 'release':
             cmd.append('--release')
-        rc, log = sh(cmd, cwd=HARNESS_DIR, timeout=900)
+        rc, log = sh(cmd, cwd=hdir, timeout=900)
         if rc != 0:
             raise BuildError('cargo build harness (%s, %s)' % (feat, profile), log)
     return os.path.join(tdir, profile, 'ais-verif-harness')
 
 def build_cli():
-    tdir = os.path.join(CACHE, 'target-cli')
-    with Lock('cargo-cli'):
+    tdir = os.path.join(CACHE, 'target-cli' + harness_dir()[1])
+    with Lock('cargo-cli' + harness_dir()[1]):
         rc, log = sh(['cargo', 'build', '--offline', '--quiet', '--manifest-path', os.path.join(REPO, 'Cargo.toml'),
                       '--bin', 'aisparser', '--target-dir', tdir], timeout=900)
         if rc != 0:
